@@ -366,6 +366,15 @@ class Session:
             q.set_error_method(q.ErrorMethod.MONTE_CARLO)
         else:
             self.res.error_method = q.ErrorMethod.MONTE_CARLO
+        # intermediate results that were READ under Monte Carlo before the final formula is evaluated: they hold
+        # their own (different) sample sets of the same size, which must not leak into the final simulation.
+        # The normal() calls they consume are a prelude (see Session.prelude) that the model does not see.
+        import qexpy.data.data as dt
+        if case.get("pre_read"):
+            for o_ in objs[:-1]:
+                if isinstance(o_, dt.DerivedValue):
+                    o_.error_method = q.ErrorMethod.MONTE_CARLO
+                    _ = o_.value, o_.error
         ids = list(op._find_source_measurement_ids(self.res._formula))
         by_id = {m._id: i for i, m in enumerate(self.meas)}
         self.order = [by_id[i] for i in ids]            # source order -> creation index
@@ -473,10 +482,11 @@ def run_case(case, ops=None):
     with patched_normal(script):
         try:
             s = Session(case)
+            prelude = len(script.calls)
             obs = [s.step(o) for o in (case["ops"] if ops is None else ops)]
         finally:
             reset_globals()
-    return {"obs": obs, "calls": script.calls, "order": s.order, "pos": s.pos, "srcs": s.src_snapshot,
+    return {"obs": obs, "calls": script.calls[prelude:], "order": s.order, "pos": s.pos, "srcs": s.src_snapshot,
             "corr": s.corr_matrix}
 
 
